@@ -35,6 +35,12 @@ R = Rules(
 )
 
 TCP = "transports.tcp."
+@R.clause("C15.i", "Release/Abort fail *every* pending request of the connection: the token manager's error fan-out (shared with C02.e)")
+def i_shared(ctx):
+    from . import c02
+    c02.e(ctx)
+
+
 F_TCP = "aiocoap/transports/tcp.py"
 F_COMMON = "aiocoap/transports/rfc8323common.py"
 
@@ -1154,19 +1160,13 @@ def _code_sets(ctx):
     if cache is not None:
         return cache
     out = {}
-    N = Normalizer()
+    # evaluated for every code 0..255 by the engine's own evaluator (any spelling of the predicates)
+    from ..absdom import code_predicates
+    preds = code_predicates(ctx.prog)
     for name in CODE_CLASSES:
         fi = ctx.prog.func("numbers.codes.Code." + name)
-        t = _method_predicate(fi)
-        ctx.need(t is not None, "Code.%s is not a one-line predicate" % name)
-        vals = set()
-        for conj in N.dnf(t):
-            iv = norm.interval_of(conj, "self")
-            ctx.need(iv is not None, "Code.%s is not a comparison of the code with constants" % name)
-            lo, hi = max(iv[0], 0), min(iv[1], 255)
-            if lo <= hi:
-                vals |= set(range(int(lo), int(hi) + 1))
-        out[name] = (vals, fi)
+        ctx.need(name in preds, "Code.%s missing" % name)
+        out[name] = (set(preds[name]), fi)
     ctx._c15_codesets = out
     return out
 
@@ -1771,3 +1771,5 @@ R.seed("C15.g", F_TCP, "        self._tokenmanager.dispatch_error(exc, connectio
 R.seed("C15.h", F_TCP, "        if msg.code.is_response():\n            self._tokenmanager.process_response(msg)", "        if msg.code.is_request():\n            self._tokenmanager.process_response(msg)", "requests and responses swapped")
 R.seed("C15.h", F_TCP, "            if msg.code.is_signalling():\n", "            if msg.code >= 225:\n", "7.00 treated as a request")
 R.seed("C15.h", F_TCP, "(RFC 8323 Section 3.4)\n            return\n", "(RFC 8323 Section 3.4)\n            pass\n", "empty message falls through (the repaired F5 re-introduced; skipped while the tree is unrepaired)")
+
+R.seed("C15.i", "aiocoap/tokenmanager.py", "                    lambda request=request, exception=exception: request.add_exception(\n                        exception\n                    )", "                    lambda: request.add_exception(\n                        exception\n                    )", "only the last pending request receives RemoteServerShutdown")
